@@ -3,6 +3,7 @@ C08 — the note-data encoder. Property theorems only; lemmas live in Simfile/Le
 -/
 import Simfile.Lemmas.NotesEncode
 import Simfile.Lemmas.NotesRoundTrip
+import Simfile.Lemmas.NotesCanonical
 namespace Simfile.C08
 open Simfile
 
@@ -91,5 +92,119 @@ position, a keysound and a mine -/
 example : Stream [⟨0, 1, '1', 1, none⟩, ⟨13/3, 0, '2', 1, some 5⟩, ⟨13/3, 2, 'M', 1, none⟩,
     ⟨17, 0, '4', 3, none⟩] 3 :=
   ⟨by decide, by decide +kernel, by decide +kernel, by decide +kernel, by decide +kernel, by decide +kernel⟩
+
+/-! ### stability of re-encoding -/
+
+/-- rebuilding note data from its own notes reproduces the same text -/
+theorem reencode_stable (ns : List Note) (cols : Nat) (h : Stream ns cols) :
+    ∃ t, encode ns cols = .ok t ∧ (decodeWith cols t).bind (fun ns' => encode ns' cols) = .ok t := by
+  obtain ⟨c, h1, h2, h3, h4⟩ := encode_well_formed ns cols h
+  refine ⟨_, h1, ?_⟩
+  rw [← h3, Spec.decodeWith_render c h2, h4, h3]
+  exact h1
+
+/-- decoding any well-formed chart yields a stream in the encoder's domain -/
+theorem decoded_is_stream (c : Spec.DChart) (h : Spec.WF c = true) :
+    Stream (Spec.notesOf c) (Spec.cols c) :=
+  let ok := Spec.notesOf_streamOK c h
+  ⟨((Spec.WF_iff c).mp h).1, Spec.keyLe_of_keyLt ok.sorted, Spec.nodup_of_keyLt ok.sorted,
+    ok.nonneg, ok.column, ok.char⟩
+
+/-- decoding any well-formed text and re-encoding it is stable after the first pass: the text `t₁`
+written from the decoded notes decodes and re-encodes to `t₁` itself -/
+theorem decode_reencode_stable (c : Spec.DChart) (h : Spec.WF c = true) (hf : C07.firstLineOk c = true) :
+    ∃ t₁, (decode (Spec.render c)).bind (fun r => encode r.2 r.1) = .ok t₁ ∧
+      (decode t₁).bind (fun r => encode r.2 r.1) = .ok t₁ := by
+  have hs := decoded_is_stream c h
+  obtain ⟨c', h1, _⟩ := encode_well_formed _ _ hs
+  have h2 := decode_encode_columns _ _ hs
+  rw [h1] at h2
+  simp only [Except.bind] at h2
+  refine ⟨Spec.render c', ?_, ?_⟩
+  · rw [Spec.decode_render c h hf]; exact h1
+  · rw [h2]; exact h1
+
+/-! ### canonical form: every player and measure up to the last note is present; skipped ones are blank -/
+
+/-- the chart `Spec.canon ns cols` is what `from_notes` writes: well-formed, `cols` columns, denoting `ns` -/
+theorem canonical_chart (ns : List Note) (cols : Nat) (h : Stream ns cols) :
+    encode ns cols = .ok (Spec.render (Spec.canon ns cols)) ∧ Spec.WF (Spec.canon ns cols) = true ∧
+      Spec.cols (Spec.canon ns cols) = cols ∧ Spec.notesOf (Spec.canon ns cols) = ns :=
+  Spec.canon_spec h.cols_pos h.ok
+
+/-- its shape: players `0..maxPlayer`; for player `p` measures `0..lastMeasure p`; measure `m` of
+player `p` has `4·lcm(denominators of its notes)` rows — four blank rows when no note falls into it -/
+theorem canonical_shape (ns : List Note) (cols : Nat) (h : Stream ns cols) :
+    (Spec.canon ns cols).length = Spec.maxPlayer ns + 1 ∧
+    ∀ p ≤ Spec.maxPlayer ns, ∃ ms, (Spec.canon ns cols)[p]? = some ms ∧
+      ms.length = Spec.lastMeasure ns p + 1 ∧
+      ∀ m ≤ Spec.lastMeasure ns p, ∃ me, ms[m]? = some me ∧
+        me.rows.length = 4 * (Spec.notesAt ns p m).foldl (fun a n => Nat.lcm a n.beat.den) 1 ∧
+        (Spec.notesAt ns p m = [] → me.rows = List.replicate 4 (Spec.zeroRow cols)) := by
+  obtain ⟨h1, h2⟩ := Spec.canon_shape h.ok
+  refine ⟨h1, ?_⟩
+  intro p hp
+  obtain ⟨ms, hms, hlen, hall⟩ := h2 p hp
+  refine ⟨ms, hms, hlen, ?_⟩
+  intro m hm
+  obtain ⟨me, hme, hrows, hl⟩ := hall m hm
+  refine ⟨me, hme, hl, ?_⟩
+  intro hnil
+  rw [hrows, hnil, Spec.measureOf_nil]
+  rfl
+
+/-- the quantities in words -/
+theorem maxPlayer_def (ns : List Note) : Spec.maxPlayer ns = (ns.map (·.player)).foldl max 0 := rfl
+
+theorem notesAt_def (ns : List Note) (p m : Nat) :
+    Spec.notesAt ns p m =
+      (ns.filter (fun n => decide (n.player = p))).filter (fun n => decide ((n.beat / 4).floor = (m : Int))) := rfl
+
+/-- `lastMeasure ns p` is ⌊beat/4⌋ of the last note of player `p`, and 0 if `p` has no note -/
+theorem lastMeasure_def (ns : List Note) (p : Nat) :
+    (∀ n ∈ ns, n.player = p → (n.beat / 4).floor.toNat ≤ Spec.lastMeasure ns p) ∧
+    ((∃ n ∈ ns, n.player = p) →
+      ∃ n ∈ ns, n.player = p ∧ (n.beat / 4).floor.toNat = Spec.lastMeasure ns p) ∧
+    ((∀ n ∈ ns, n.player ≠ p) → Spec.lastMeasure ns p = 0) := Spec.lastMeasure_spec ns p
+
+/-- the text has exactly `maxPlayer + 1` player sections -/
+theorem canonical_players (ns : List Note) (cols : Nat) (h : Stream ns cols) (t : Str)
+    (ht : encode ns cols = .ok t) :
+    (splitOn '&' t).length = (ns.map (·.player)).foldl max 0 + 1 := by
+  obtain ⟨t', h1, h2, _⟩ := Spec.canonical_text h.cols_pos h.ok
+  rw [ht] at h1
+  cases h1
+  exact h2
+
+/-- player `p`'s section has exactly `lastMeasure p + 1` measures -/
+theorem canonical_measures (ns : List Note) (cols : Nat) (h : Stream ns cols) (t : Str)
+    (ht : encode ns cols = .ok t) (p : Nat) (hp : p ≤ Spec.maxPlayer ns) :
+    ∃ sec, (splitOn '&' t)[p]? = some sec ∧ (splitOn ',' sec).length = Spec.lastMeasure ns p + 1 := by
+  obtain ⟨t', h1, _, h3⟩ := Spec.canonical_text h.cols_pos h.ok
+  rw [ht] at h1
+  cases h1
+  obtain ⟨sec, hs, hl, _⟩ := h3 p hp
+  exact ⟨sec, hs, hl⟩
+
+/-- measure `m` of player `p` has exactly `4·lcm` lines (`rows_of_measure` for the whole stream) -/
+theorem canonical_rows (ns : List Note) (cols : Nat) (h : Stream ns cols) (t : Str)
+    (ht : encode ns cols = .ok t) (p m : Nat) (hp : p ≤ Spec.maxPlayer ns) (hm : m ≤ Spec.lastMeasure ns p) :
+    ∃ sec mt, (splitOn '&' t)[p]? = some sec ∧ (splitOn ',' sec)[m]? = some mt ∧
+      (splitLines (strip mt)).length =
+        4 * (Spec.notesAt ns p m).foldl (fun a n => Nat.lcm a n.beat.den) 1 := by
+  obtain ⟨t', h1, _, h3⟩ := Spec.canonical_text h.cols_pos h.ok
+  rw [ht] at h1
+  cases h1
+  obtain ⟨sec, hs, _, hr⟩ := h3 p hp
+  obtain ⟨mt, hmt, hl⟩ := hr m hm
+  exact ⟨sec, mt, hs, hmt, hl⟩
+
+/-- the example stream: players 0..3, player 1 has measures 0..1 (the second with 12 rows), player 3
+measures 0..4, players 0 and 2 one blank measure -/
+example : let ns : List Note := [⟨0, 1, '1', 1, none⟩, ⟨13/3, 0, '2', 1, some 5⟩, ⟨13/3, 2, 'M', 1, none⟩,
+    ⟨17, 0, '4', 3, none⟩]
+    Spec.maxPlayer ns = 3 ∧ Spec.lastMeasure ns 0 = 0 ∧ Spec.lastMeasure ns 1 = 1 ∧
+    Spec.lastMeasure ns 3 = 4 ∧ (Spec.notesAt ns 1 1).foldl (fun a n => Nat.lcm a n.beat.den) 1 = 3 := by
+  decide +kernel
 
 end Simfile.C08
